@@ -557,11 +557,123 @@ def gen_sheet_codes(repo):
 
 
 # ----------------------------------------------------------------------------------------------
+# table: xlsx cell-error literals (src/xlsx/mod.rs `impl FromStr for CellErrorType`)  →  Gen/XlsxErrors.lean   (C01)
+# ----------------------------------------------------------------------------------------------
+
+CELL_ERROR_VARIANTS = ["Div0", "NA", "Name", "Null", "Num", "Ref", "Value", "GettingData"]
+
+
+def gen_xlsx_errors(repo):
+    t = "lib::CellErrorType"
+    lib = read_source(repo, "src/lib.rs")
+    if enum_variants(t, lib, "CellErrorType") != CELL_ERROR_VARIANTS:
+        raise Unreadable(t, f"variants are {enum_variants(t, lib, 'CellErrorType')}, the Lean mirror expects {CELL_ERROR_VARIANTS}")
+    t = "xlsx::CellErrorType::from_str"
+    src = read_source(repo, "src/xlsx/mod.rs")
+    hits = [m for m in re.finditer(r"\bimpl\s+FromStr\s+for\s+CellErrorType\s*\{", src)]
+    if len(hits) != 1:
+        raise Unreadable(t, f"expected one `impl FromStr for CellErrorType`, found {len(hits)}")
+    b = hits[0].end() - 1
+    impl = src[b + 1:balanced(src, b) - 1]
+    _, body = fn_body(t, impl, "from_str")
+    arms = single_match(t, body, "s")
+    rows, closed = [], False
+    for pat, expr in split_arms(t, arms):
+        if closed:
+            raise Unreadable(t, "arm after the catch-all arm")
+        if pat == "_":
+            if not re.match(r"Err\s*\(", expr):
+                raise Unreadable(t, f"catch-all arm is not an error: {expr[:60]!r}")
+            closed = True
+            continue
+        m = re.fullmatch(r"Ok\s*\(\s*CellErrorType::(\w+)\s*\)", expr)
+        if not m or m.group(1) not in CELL_ERROR_VARIANTS:
+            raise Unreadable(t, f"arm result is not Ok(CellErrorType::V): {expr[:60]!r}")
+        for alt in split_top(pat, "|"):
+            lit = re.fullmatch(r'"((?:[^"\\]|\\.)*)"', alt.strip())
+            if not lit or "\\" in lit.group(1) or any(ord(c) > 126 or ord(c) < 32 for c in lit.group(1)):
+                raise Unreadable(t, f"pattern is not a plain ASCII string literal: {alt.strip()[:40]!r}")
+            rows.append((lit.group(1), m.group(1)))
+    if not closed:
+        raise Unreadable(t, "no catch-all arm")
+    if len({k for k, _ in rows}) != len(rows):
+        raise Unreadable(t, "a literal occurs in two arms")
+    L = ["import CalVerif.Model.CellError",
+         HEADER.format(src="src/lib.rs (enum CellErrorType), src/xlsx/mod.rs (impl FromStr for CellErrorType)"), "namespace Gen\n"]
+    L.append("/-- the arms of `CellErrorType::from_str` in source order: (ASCII codes of the literal, variant);\n"
+             "    every other string is `Err(XlsxError::CellError)` -/")
+    L.append("def xlsxErrorFromStr : List (List Nat × CellErrorType) :=\n  [" +
+             ",\n   ".join(f"({list(k.encode())}, {lean_ctor(v)})   -- \"{k}\"" if False else f"({list(k.encode())}, {lean_ctor(v)})" for k, v in rows) + "]\n")
+    L.append("end Gen\n")
+    return "XlsxErrors.lean", "\n".join(L)
+
+
+def gen_berr_tables(repo):
+    """BErr code → CellErrorType: the BrtCellError / BrtFmlaError arm of xlsb `next_cell` and xls `parse_err` (C03)"""
+    lib = read_source(repo, "src/lib.rs")
+    t = "lib::CellErrorType"
+    if enum_variants(t, lib, "CellErrorType") != CELL_ERROR_VARIANTS:
+        raise Unreadable(t, f"variants are {enum_variants(t, lib, 'CellErrorType')}, the Lean mirror expects {CELL_ERROR_VARIANTS}")
+
+    def u8_lit(t):
+        def f(s):
+            v = int_literal(t, s)
+            if v > 255:
+                raise Unreadable(t, f"literal {s!r} outside u8")
+            return v
+        return f
+
+    t = "xlsb::cells_reader::next_cell(BErr)"
+    src = read_source(repo, "src/xlsb/cells_reader.rs")
+    _, body = fn_body(t, src, "next_cell")
+    _, arms = inner_match(t, body, r"self\s*\.\s*buf\s*\[\s*8\s*\]")
+    xlsb_rows = code_table(t, arms, "CellErrorType", CELL_ERROR_VARIANTS, u8_lit(t))
+
+    t = "xls::parse_err"
+    xls = read_source(repo, "src/xls.rs")
+    _, body = fn_body(t, xls, "parse_err")
+    arms = single_match(t, body, "e")
+    xls_rows, closed = [], False
+    for pat, expr in split_arms(t, arms):
+        if closed:
+            raise Unreadable(t, "arm after the catch-all arm")
+        if re.fullmatch(r"_|[a-z]\w*", pat):
+            if not re.match(r"Err\s*\(", expr):
+                raise Unreadable(t, f"catch-all arm is not an error: {expr[:60]!r}")
+            closed = True
+            continue
+        m = re.fullmatch(r"Ok\s*\(\s*Data::Error\s*\(\s*CellErrorType::(\w+)\s*\)\s*\)", expr)
+        if not m or m.group(1) not in CELL_ERROR_VARIANTS:
+            raise Unreadable(t, f"arm result is not Ok(Data::Error(CellErrorType::V)): {expr[:60]!r}")
+        for alt in split_top(pat, "|"):
+            xls_rows.append((u8_lit(t)(alt.strip()), m.group(1)))
+    if not closed:
+        raise Unreadable(t, "no catch-all arm")
+    if len({k for k, _ in xls_rows}) != len(xls_rows):
+        raise Unreadable(t, "a literal occurs in two arms")
+
+    def tbl(rows):
+        return "[" + ", ".join(f"({k}, {lean_ctor(v)})" for k, v in rows) + "]"
+    L = ["import CalVerif.Model.CellError",
+         HEADER.format(src="src/lib.rs (enum CellErrorType), src/xlsb/cells_reader.rs (next_cell, `match self.buf[8]`), src/xls.rs (parse_err)"),
+         "namespace Gen\n",
+         "/-- the arms of `match self.buf[8]` in the BrtCellError | BrtFmlaError arm of xlsb `next_cell`, in source order;\n"
+         "    every other byte is `Err(XlsbError::CellError)` -/",
+         f"def xlsbErrTable : List (Nat × CellErrorType) :=\n  {tbl(xlsb_rows)}\n",
+         "/-- the arms of xls `parse_err`, in source order; every other byte is `Err(XlsError::Unrecognized)` -/",
+         f"def xlsErrTable : List (Nat × CellErrorType) :=\n  {tbl(xls_rows)}\n",
+         "end Gen\n"]
+    return "BErrTables.lean", "\n".join(L)
+
+
+# ----------------------------------------------------------------------------------------------
 
 TABLES = [
     gen_format_tables,
     gen_ftab,
     gen_sheet_codes,
+    gen_xlsx_errors,
+    gen_berr_tables,
     # other workers: add `gen_<table>(repo) -> (file name, lean text)` above and register it here
 ]
 
